@@ -194,7 +194,11 @@ def repeatOp (j : Json) : Json :=
     let v := verdict kind (jget j "in")
     let corr := !impl.isEmpty && impl.all v.allowed
     let specOk := impl.length == 1 && impl.all (jeq v.fixed)
-    let known := if corr && !specOk then dedup (v.known impl) else []
+    -- only OPEN known findings excuse a failure (field `open`, read by the harness from
+    -- known_findings.json); a regression of a fixed one is reported with its input
+    let isOpen (id : String) : Bool := !jhas j "open" || (strList (jget j "open")).contains id
+    let ids := if corr && !specOk then dedup (v.known impl) else []
+    let known := if ids.all isOpen then ids else []
     Json.mkObj [("model", if corr then Json.arr impl.toArray else Json.arr #[v.fixed]), ("spec_ok", specOk),
       ("in_domain", true), ("known", jstrs known),
       ("why", if specOk then "" else s!"site {jstr j "site"}: {impl.length} distinct response(s), expected exactly {v.fixed.compress}"),
